@@ -62,7 +62,9 @@ class ExtendsNode(Node):
         outer_stacks = context.tag_namespace["extends"]
         context.tag_namespace["extends"] = defaultdict(list)
         try:
-            base_template = _build_block_stacks(context, context.template, "extends")
+            base_template = _build_block_stacks(
+                context, context.template, "extends", self.token
+            )
             base_template.render_with_context(context, buffer)
         finally:
             context.tag_namespace["extends"] = outer_stacks
@@ -76,7 +78,7 @@ class ExtendsNode(Node):
         context.tag_namespace["extends"] = defaultdict(list)
         try:
             base_template = await _build_block_stacks_async(
-                context, context.template, "extends"
+                context, context.template, "extends", self.token
             )
             await base_template.render_with_context_async(context, buffer)
         finally:
@@ -438,6 +440,7 @@ def _build_block_stacks(
     context: RenderContext,
     template: Template,
     tag: str,
+    token: TokenT | None = None,
 ) -> Template:
     """Build a stack for each `{% block %}` in the inheritance chain.
 
@@ -483,7 +486,14 @@ def _build_block_stacks(
         if next_template:
             base = next_template
 
-    assert base
+    if base is None:
+        # An `extends` tag rendered from somewhere other than the body of the
+        # template it was written in, like a macro called by another template.
+        raise TemplateInheritanceError(
+            f"unexpected '{tag}', it is not part of the template being rendered",
+            token=token,
+            template_name=template.full_name(),
+        )
     return base
 
 
@@ -491,6 +501,7 @@ async def _build_block_stacks_async(
     context: RenderContext,
     template: Template,
     tag: str,
+    token: TokenT | None = None,
 ) -> Template:
     """Build a stack for each `{% block %}` in the inheritance chain.
 
@@ -536,7 +547,14 @@ async def _build_block_stacks_async(
         if next_template:
             base = next_template
 
-    assert base
+    if base is None:
+        # An `extends` tag rendered from somewhere other than the body of the
+        # template it was written in, like a macro called by another template.
+        raise TemplateInheritanceError(
+            f"unexpected '{tag}', it is not part of the template being rendered",
+            token=token,
+            template_name=template.full_name(),
+        )
     return base
 
 
